@@ -83,6 +83,7 @@ func TestC04(t *testing.T) {
 	cfg := rsGenCfg{Rules: rc, Vary: true, MaxCycle: func(rt *rapid.T) uint64 { return uint64(rapid.IntRange(1, 6).Draw(rt, "maxcycle")) }}
 	check(t, 0, budget(6000, 80000), func(rt *rapid.T) {
 		c, rs := genRSCase(rt, cfg)
+		maybeUsedBefore(rt, c, rs, cfg.Rules.State)
 		rep, v := runValidated(rt, c, "C04")
 		nt, fl := c04Features(c, rep, rs.Hot)
 		labels := append(featLabels(rs), fl...)
